@@ -18,9 +18,9 @@
     probability.
   Both are also stated for an arbitrary tableau/state pair satisfying the invariants
   (`T12_determined_outcome_general`, `T12_random_outcome_general`).
-  NOT proved: that `_random_outcome`'s tableau update keeps these invariants for the collapsed
-  state (needed to chain the theorems along a sequence of measurements after a random outcome) —
-  stated in `MeasurementSequence_statement`.
+  That `_random_outcome`'s tableau update keeps these invariants for the collapsed state (needed
+  to chain the theorems along a sequence of measurements after a random outcome) is described in
+  `MeasurementSequence_statement` and proved in C12d.lean.
 -/
 import QV.Props.C12b
 import QV.Proofs.CliffordMeas
@@ -116,11 +116,11 @@ theorem T12_random_outcome_both_possible : RandomOutcomeBothPossible := by
   exact T12_random_outcome_general n _ q hq (runSV n gs)
     (fun i hi => T12_stabilizer_state n gs hg i hi) (runSV_nonzero n gs hg) p hp coin
 
-/-- what is still open (kept visible, not proved): the tableau written by `_random_outcome` with
-coin `b`, together with the state vector projected on `x_q = b`, again satisfies `Valid`, `NonDeg`
-and "stabiliser rows fix the state" — this chains the two theorems above along any list of
-measured qubits (`measure`); the determined branch changes only the scratch row, so chains of
-determined measurements are already covered. -/
+/-- the chaining statement (PROVED in C12d.lean: `T12_random_outcome_keeps_invariants`,
+`T12_measure_keeps_invariants`, `T12_measurement_sequence_born`): the tableau written by
+`_random_outcome` with coin `b`, together with the state vector projected on `x_q = b`, again
+satisfies `Valid`, `NonDeg` and "stabiliser rows fix the state" — this chains the two theorems above
+along any list of measured qubits (`measure`). -/
 def MeasurementSequence_statement : String :=
   "∀ n T ψ q b, Valid n T → NonDeg n T → stabilises n T ψ → findP n T q = some p → " ++
   "let T' := randomOutcome n T p q b; Valid n T' ∧ NonDeg n T' ∧ stabilises n T' (project q b ψ)"
